@@ -19,6 +19,63 @@ def split_model(line):
     return a.split(" / "), spec.replace("spec: ", "", 1).strip(), effs.strip()
 
 
+SPEC_MAX_LEN = 1 << 20      # BEP 3 framing limit enforced by read_message (spec constants, NOT from Params)
+SPEC_EXT_LIMIT = 1 << 15
+SPEC_EXT_TYPES = 3
+
+
+def spec_limit_walk(case):
+    """Independent of the Coq model and of the extracted constants: walk the stream with the fixed limits and
+    return True if a length / extension limit MUST have closed the connection before any other reason to close
+    or any incomplete message is met; None when the walk cannot tell."""
+    kv = dict(t.split("=", 1) for t in case.split() if "=" in t)
+    if kv.get("ho", "-") != "-":
+        return None
+    s = bytes.fromhex(kv["stream"]) if kv.get("stream", "-") != "-" else b""
+    role, np_ = kv["role"], int(kv["np"])
+    p = 0
+    have = set()
+    while True:
+        if len(s) - p < 4:
+            return None
+        ln = int.from_bytes(s[p:p + 4], "big")
+        if ln == 0:
+            p += 4
+            continue
+        if len(s) - p < 5:
+            return None
+        if ln > SPEC_MAX_LEN:
+            return True
+        mid = s[p + 4]
+        if mid in (0, 1, 2, 3):
+            p += 5
+        elif mid == 4:
+            if len(s) - p < 9 or int.from_bytes(s[p + 5:p + 9], "big") >= np_:
+                return None
+            if kv["bits"] != "-":
+                return None
+            have.add(int.from_bytes(s[p + 5:p + 9], "big"))
+            if len(have) >= np_:
+                return None        # completing the bitfield may close the connection: stop
+            p += 9
+        elif mid in (6, 8):
+            if len(s) - p < 17:
+                return None
+            p += 17
+        elif mid == 9:
+            if len(s) - p < 7:
+                return None
+            p += 7
+        elif mid == 20:
+            if len(s) - p < 6:
+                return None
+            if s[p + 5] >= SPEC_EXT_TYPES or ln < 2 or ln - 2 > SPEC_EXT_LIMIT:
+                return True
+            return None    # what the payload does is handler business
+        else:
+            return None
+
+
 def oracle(case, mline, iline):
     """Property C03 evaluated on ONE implementation output line (the model line supplies the reference
     decode of the whole stream). Returns list of (klass, text)."""
@@ -41,6 +98,9 @@ def oracle(case, mline, iline):
         bad.append(("segmentation-dependent", "state after quiescence differs between segmentations of the same stream"))
     if len(set(d2)) > 1:
         bad.append(("segmentation-dependent-responses", "responses / liveness after releasing the writer differ between segmentations"))
+    if spec_limit_walk(case) is True and any(d != "closed=1" for d in d1):
+        bad.append(("limit-not-enforced", "a length prefix above 2^20 / an extension message above 2^15 bytes or of unknown type "
+                                          "did not close the connection"))
     wrong = [d for d in d1 if d != spec]
     if wrong and spec not in ("FAULT", "OUTOFFUEL", ""):
         kl = "handover-unparsed" if " ho=-" not in case else "stream-effect-differs-from-decode"
